@@ -59,6 +59,54 @@ pub fn handle(op: &str, req: &Value) -> Option<Value> {
                    "differs": scan.is_ok() && idx.is_ok() && scan != idx})
         },
         // the same statement before and after a restart of a durable engine (B-tree index rebuilt from its persisted keys)
+        "relational_rollback" => {
+            // U1: a table with a hash and an ordered index on x; one transaction performing, on ONE row where possible, the
+            // statements whose undo entries the witness lists (so that the order of undo matters); rollback; every row and every
+            // index answer must be as before the transaction.
+            let e = RelationalEngine::new();
+            let cols = vec![Column::new("id", ColumnType::Int), Column::new("x", ColumnType::Int)];
+            if let Err(err) = e.create_table("t", Schema::new(cols)) { return Some(json!({"error": err.to_string()})); }
+            let with_idx = req["undo"].as_array().map_or(true, |a| a.iter().any(|u| u[1].as_u64().unwrap_or(0) > 0));
+            if with_idx {
+                let _ = e.create_index("t", "x");
+                let _ = e.create_btree_index("t", "x");
+            }
+            for (id, x) in [(1i64, 10i64), (2, 20)] {
+                let _ = e.insert("t", HashMap::from([("id".to_string(), RV::Int(id)), ("x".to_string(), RV::Int(x))]));
+            }
+            let observe = |e: &RelationalEngine| -> Vec<String> {
+                let mut out = vec![];
+                let mut rows: Vec<String> = e.select("t", Condition::True).map(|rs| rs.iter().map(|r| format!("{:?}/{:?}", r.get("id"), r.get("x"))).collect()).unwrap_or_default();
+                rows.sort();
+                out.push(format!("rows {rows:?}"));
+                for v in [10i64, 11, 12, 20, 30] {
+                    out.push(format!("x={v}: {:?}", e.select("t", Condition::Eq("x".into(), RV::Int(v))).map(|r| r.len()).ok()));
+                    out.push(format!("x>={v}: {:?}", e.select("t", Condition::Ge("x".into(), RV::Int(v))).map(|r| r.len()).ok()));
+                }
+                out
+            };
+            let before = observe(&e);
+            let tx = e.begin_transaction();
+            let mut cur = 10i64;     // value of row 1 as the transaction sees it; row 1 may get deleted, then later statements use row 2
+            let mut alive = true;
+            let mut steps = vec![];
+            for u in req["undo"].as_array().into_iter().flatten() {
+                let r = match u[0].as_str().unwrap_or("") {
+                    "InsertedRow" => e.tx_insert(tx, "t", HashMap::from([("id".to_string(), RV::Int(3)), ("x".to_string(), RV::Int(30))])).map(|_| 1),
+                    "UpdatedRow" => {
+                        let (idv, from) = if alive { (1, cur) } else { (2, 20) };
+                        let _ = from;
+                        cur += 1;
+                        e.tx_update(tx, "t", Condition::Eq("id".into(), RV::Int(idv)), HashMap::from([("x".to_string(), RV::Int(cur))]))
+                    },
+                    _ => { let idv = if alive { alive = false; 1 } else { 2 }; e.tx_delete(tx, "t", Condition::Eq("id".into(), RV::Int(idv))) },
+                };
+                steps.push(format!("{}: {:?}", u[0], r.map_err(|e| e.to_string())));
+            }
+            let rb = e.rollback(tx).map_err(|e| e.to_string());
+            let after = observe(&e);
+            json!({"steps": steps, "rollback": rb, "before": before, "after": after, "violates": before != after})
+        },
         "relational_index_after_recover" => {
             let (rowv, ty) = value(&req["row"]);
             let (condv, _) = value(&req["cond"]);
